@@ -497,6 +497,12 @@ def main(argv=None):
             n_obl += 1
             discharged += 1
             by_backend["path-execution"] = by_backend.get("path-execution", 0) + 1
+        nt = r.get("n_trivial", 0)
+        if nt:
+            # entrywise goals whose two sides are the same hash-consed normal form (no solver needed)
+            n_obl += nt
+            discharged += nt
+            by_backend["vk-normal-form(identical terms)"] = by_backend.get("vk-normal-form(identical terms)", 0) + nt
         for nm in r.get("nf_discharged", []):
             n_obl += 1
             discharged += 1
